@@ -4,7 +4,17 @@ from . import rfc, treegen
 from .runner import ShardOut, Violation, run_batch, mechanical_violations, case_witness, SEED, HarnessFailure
 from .tn import Node, to_tn, from_tn, hx, d2b, tn_crc
 
-PTR_KEYS = [b'', b'a', b'A', b'/', b'~', b'~0', b'~1', b'a/b', b'm~n', b'0', b'1', b'01', b'-', b' ', b'1A', b'foo', b'FOO', b'Foo', b'b', b'k~/k']
+PTR_KEYS = [b'', b'a', b'A', b'/', b'~', b'~0', b'~1', b'a/b', b'm~n', b'0', b'1', b'01', b'-', b' ', b'1A', b'foo', b'FOO', b'Foo', b'b', b'k~/k',
+            b'\xc3\xa9', b'\xc3\xa9t\xc3\xa9', b'\xe6\x97\xa5', b'z\xc3\xbc', b'\xff', b'\x7f', b'\x80a']
+
+
+def wrapping_indices(L):
+    """decimal index tokens far beyond any array that come back into range when truncated to 31,
+    32, 63 or 64 bits"""
+    out = []
+    for M in (2 ** 31, 2 ** 32, 2 ** 33, 2 ** 63, 2 ** 64 - 2 ** 32, 3 * 2 ** 32):
+        out += [b'%d' % M, b'%d' % (M + max(L - 1, 0)), b'%d' % (M + 1)]
+    return out
 NUMS = [0.0, 1.0, -1.0, 1.5, 1e20, 42.0, 2147483648.0, 0.25, -7e-3, 123456789.0]
 STRS = [b'', b'x', b'X', b'hello', b'a/b', b'~', b'\xc3\xa9', b'with space', b'0']
 
@@ -216,6 +226,10 @@ def pointer_variants(rng, doc):
             for t in (b'%d' % L, b'%d' % (L + 1), b'00', b'01', b'0x0', b'-1', b'+0', b'1A', b'0A', b'1e0', b' 0', b'0 ', b'',
                       b'18446744073709551616', b'18446744073709551617', b'%d' % (2 ** 64 + max(L - 1, 0)), b'184467440737095516160', b'99999999999999999999999'):
                 P.add(c + b'/' + t)
+            for t in wrapping_indices(L):
+                P.add(c + b'/' + t)
+                if L and n.kids[0].kind in 'ao':
+                    P.add(c + b'/' + t + b'/0')
             if L:
                 P.add(c + b'/%d' % (L - 1))
                 P.add(c + b'/0%d' % (L - 1))
@@ -445,6 +459,15 @@ def faulty_op(rng, doc):
         for tok in (b'%d' % L, b'-', b'%d' % (L + 3), b'01', b'', b'1A'):
             choices.append(lambda tok=tok: opobj(op=b'remove', path=ap + b'/' + tok))
             choices.append(lambda tok=tok: opobj(op=b'replace', path=ap + b'/' + tok, value=v))
+        if L and rng.random() < 0.5:
+            # indices that alias an existing element once truncated to fewer bits
+            j = rng.randrange(L)
+            M = rng.choice([2 ** 31, 2 ** 32, 2 ** 33, 2 ** 63, 2 ** 64 - 2 ** 32, 3 * 2 ** 32])
+            if M + j < 2 ** 64:
+                wp = ap + b'/%d' % (M + j)
+                choices += [lambda: opobj(op=b'test', path=wp, value=a.kids[j].clone()), lambda: opobj(op=b'copy', frm=wp, path=b'/zz'),
+                            lambda: opobj(op=b'move', frm=wp, path=b'/zz'), lambda: opobj(op=b'remove', path=wp), lambda: opobj(op=b'replace', path=wp, value=v),
+                            lambda: opobj(op=b'add', path=wp + b'/new', value=v), lambda: opobj(op=b'add', path=wp + b'/0', value=v), lambda: opobj(op=b'test', path=wp + b'/0', value=v)] * 2
     if objs:
         o = rng.choice(objs)
         obp = rfc.canonical_pointer(doc, o)
